@@ -9,6 +9,8 @@ import datetime
 import hashlib
 import logging
 from pathlib import Path
+import secrets
+import threading
 from typing import cast, AbstractSet, ClassVar, Optional, NamedTuple
 
 import flask
@@ -27,6 +29,8 @@ from .blob import Blob
 from .db import db
 from .mediafile import MediaFile
 from .mixin import ModelMixin
+
+upload_lock = threading.Lock()
 
 class TrackSummary(NamedTuple):
     content_type: str
@@ -170,6 +174,12 @@ class Stream(ModelMixin["Stream"], Base):
         return datetime.timedelta(0)
 
     def add_file(self, file_upload: FileStorage, commit: bool = False) -> MediaFile:
+        # An upload replaces rows and files in several steps. File names are
+        # unique across streams, so uploads are handled one at a time
+        with upload_lock:
+            return self.add_file_while_locked(file_upload, commit)
+
+    def add_file_while_locked(self, file_upload: FileStorage, commit: bool) -> MediaFile:
         filename = Path(secure_filename(file_upload.filename))
         upload_folder = Path(flask.current_app.config['BLOB_FOLDER']) / self.directory
         logging.debug('upload_folder="%s"', upload_folder)
@@ -178,35 +188,53 @@ class Stream(ModelMixin["Stream"], Base):
         assert upload_folder.exists()
         abs_filename = upload_folder / filename
         logging.debug('destination file "%s"', abs_filename)
-        mf = MediaFile.get(name=filename.stem)
-        if mf:
-            if mf.stream_pk != self.pk:
-                # file names are unique across streams: the upload takes
-                # the file away from the other stream
-                mf.clear_timing_reference()
-            mf.delete_file()
-            mf.delete()
-        blob = Blob.get_one(filename=filename.name)
-        if blob:
-            blob.delete_file(upload_folder)
-            blob.delete()
-        file_upload.save(abs_filename)
-        blob = Blob(
-            filename=filename.name,
-            size=abs_filename.stat().st_size,
-            content_type=file_upload.mimetype)
-        with abs_filename.open('rb') as src:
-            digest = hashlib.file_digest(src, 'sha1')
-            blob.sha1_hash = digest.hexdigest()
-        logging.debug("%s hash=%s", abs_filename, blob.sha1_hash)
-        db.session.add(blob)
-        mf = MediaFile(
-            name=filename.stem, stream=self, blob=blob,
-            content_type=file_upload.mimetype)
-        db.session.add(mf)
+        # The upload is stored under a temporary name and only takes the
+        # place of the files it replaces once the database has accepted the
+        # change. A request that fails, or a server that stops half-way,
+        # leaves the existing rows together with their files
+        tmp_filename = upload_folder / f'.{filename.name}.{secrets.token_hex(6)}.tmp'
+        file_upload.save(tmp_filename)
+        replaced: set[Path] = set()
+        try:
+            mf = MediaFile.get(name=filename.stem)
+            if mf:
+                if mf.stream_pk != self.pk:
+                    # file names are unique across streams: the upload takes
+                    # the file away from the other stream
+                    mf.clear_timing_reference()
+                if mf.blob is not None and mf.blob.auto_delete:
+                    replaced.add(
+                        MediaFile.absolute_path(mf.stream.directory) / mf.blob.filename)
+                mf.delete()
+            blob = Blob.get_one(filename=filename.name)
+            if blob:
+                if blob.auto_delete:
+                    replaced.add(upload_folder / blob.filename)
+                blob.delete()
+            blob = Blob(
+                filename=filename.name,
+                size=tmp_filename.stat().st_size,
+                content_type=file_upload.mimetype)
+            with tmp_filename.open('rb') as src:
+                digest = hashlib.file_digest(src, 'sha1')
+                blob.sha1_hash = digest.hexdigest()
+            logging.debug("%s hash=%s", abs_filename, blob.sha1_hash)
+            db.session.add(blob)
+            mf = MediaFile(
+                name=filename.stem, stream=self, blob=blob,
+                content_type=file_upload.mimetype)
+            db.session.add(mf)
+            if commit:
+                db.session.commit()
+        except Exception:
+            tmp_filename.unlink(missing_ok=True)
+            raise
+        for old_filename in replaced:
+            if old_filename != abs_filename:
+                old_filename.unlink(missing_ok=True)
+        tmp_filename.replace(abs_filename)
         if not commit:
             return mf
-        db.session.commit()
         return MediaFile.get(name=filename.stem, stream=self)
 
     def track_summary(self) -> StreamTrackSummary:
